@@ -312,7 +312,70 @@ def h14_store_failure(S):
     S.check("each-attempt-executed-exactly-once", len(runs) == 2, info=f"executions: {len(runs)} (one failing attempt and one retry expected)")
 
 
+def h14_rabbit(S):
+    """RabbitMQ client bookkeeping (delivery tags, local buffer): what one consumer holds is not handed to another."""
+    from fakes import amqp as fa
+    from repid.data._key import RoutingKey
+    import repid.data._parameters as P
+
+    scenario = ["finish-with-held-and-buffered", "reject-redelivered-then-acked"][S.pick("scenario", 2)]
+    settle = [0, 3][S.pick("settle_returns_after_redelivery", 2)]
+    S.tag("scenario", scenario)
+    out = {}
+
+    async def main(loop):
+        br, ch, srv = fa.mk_broker()
+        srv.settle_turns = settle
+        await br.queue_declare("default")
+        for i in (("w1", "w2") if scenario == "finish-with-held-and-buffered" else ("w1",)):
+            await br.enqueue(RoutingKey(topic="job", queue="default", id_=i), "p", P.Parameters(timestamp=P.datetime.now()))
+        a = br.get_consumer("default", ["job"])
+        await a.start()
+        first = await asyncio.wait_for(a.consume(), timeout=1)
+        out["first"] = first[0].id_
+        if scenario == "finish-with-held-and-buffered":
+            # process A holds `first` (its actor is running) while another message sits in A's buffer; A's consumer finishes,
+            # a second consumer of the same broker takes over
+            await asyncio.sleep(Fraction(1, 100))
+            b = br.get_consumer("default", ["job"])
+            await a.finish()
+            await b.start()
+            got = []
+            for _ in range(2):
+                try:
+                    got.append((await asyncio.wait_for(b.consume(), timeout=Fraction(1, 2)))[0].id_)
+                except asyncio.TimeoutError:
+                    break
+            out["second_consumer_got"] = got
+        else:
+            # the holder hands the message back, gets it again, succeeds and acks; then the connection goes away
+            await br.reject(first[0])
+            again = await asyncio.wait_for(a.consume(), timeout=1)
+            out["again"] = again[0].id_
+            await br.ack(again[0])
+            await asyncio.sleep(Fraction(1, 5))
+            ch.close()
+            await asyncio.sleep(Fraction(1, 100))
+            out["ready_after_close"] = [m.props.message_id for m in srv.queues["default"].ready]
+
+    run_async(main)
+    S.cover(scenario)
+    if scenario == "finish-with-held-and-buffered":
+        S.check("held-message-not-delivered-to-another-consumer", out["first"] not in out["second_consumer_got"],
+                info=f"{out['first']} is still held by its first consumer, the second consumer received {out['second_consumer_got']}")
+    else:
+        S.check("acknowledged-job-is-not-delivered-again", out["again"] not in out["ready_after_close"],
+                info=f"{out['again']} ran and was acked, yet it is ready again after the connection closed: {out['ready_after_close']}")
+
+
 HARNESSES = [
+    Harness(name="H14-rabbit", scenario=h14_rabbit,
+            bounds={"scenarios": "a consumer finishing while it holds one message and buffers another, then a second consumer; "
+                                 "reject -> redelivery -> ack -> connection closed", "settle calls": "return before or after the redelivery they cause"},
+            functions=["connections/rabbitmq/consumer.py:_RabbitConsumer.finish", "connections/rabbitmq/message_broker.py:RabbitMessageBroker.reject",
+                       "connections/rabbitmq/message_broker.py:RabbitMessageBroker.ack"],
+            covers=["finish-with-held-and-buffered", "reject-redelivered-then-acked"],
+            stubs=["fake AMQP server: nack/ack with multiple=True cover all lower tags; a closed channel requeues its unsettled deliveries"]),
     Harness(name="H14-store-failure", scenario=h14_store_failure, workers=8,
             bounds={"result store": "any real latency in [0, 6 ms], fails once after the retry was requeued", "attempt duration": "2 ms",
                     "workers": "2 on one in-memory queue, zero back-off, delayed rescan every 4 ms"},
